@@ -113,6 +113,38 @@ Fifth round (blocks marked `x5`; run-time additions in ``lean/PkgModel/PySet.lea
   other        ``sorted(xs)`` of strings, ``iter(xs)``, ``bool(x)``, ``"…{}…".format(*xs)``, ``map(<tracked class>, xs)``,
                ``Specifier(…)`` as the primitive ``PySet.mkSpecifier`` (scanner ``S.parseSpec``; only while the source of
                ``Specifier.__init__`` has the digest in ``PRIMITIVE_INIT_GUARDS``), ``s.strip()`` in ``specifiers.py``
+Sixth round (blocks marked `x6`; run-time additions in ``lean/PkgModel/PyPlat.lean``, ``PyElf.lean``, ``PyMd.lean``):
+  rewriting    the functions listed in ``X6_FUNCTIONS`` go through a pass over their ast (``_X6Rewrite``, before the analyses)
+               that brings the platform code into the subset and leaves pseudo-calls ``__x6_*`` for ``Fn.x6_call``; every
+               rewrite keeps Python's evaluation order, what cannot be rewritten faithfully is left alone and then refused:
+               ``import m`` inside a function (the module found — or the ImportError — is the environment entry ``import m``;
+               ``hasattr(m, "a")``, ``m.a``, ``m.f(args)`` on it: ``PyPlat.hasattr`` / ``call_attr``), ``with <probe>(…) as f:``
+               for the probes in ``X6_ENV_CONTEXTS`` (``f = <probe>(…)`` then the body), unpacking into more than three names
+               or into ``self.x`` targets (``PyPlat.unpack_n`` then one assignment per target, left to right), named tuples of
+               the module as plain tuples (``C(a, b)``, ``C(*xs)``, ``C(k=…)`` in field order; ``.field`` by index), module-level
+               dicts with tuple keys / a ``defaultdict`` (``k in D``, ``D[k]``: current contents and default inlined), a dict
+               display subscripted or ``.get``-ed at once, ``&``, members of ``IntEnum`` classes as their numbers, a local bound
+               once to a set display of constants and only used in ``in`` tests, ``"…{k}…".format(k=…)`` with the keywords in
+               field order (an f-string), a parameter left to a default that is a probe of the interpreter
+               (``_32_BIT_INTERPRETER``: read from the environment), ``subprocess.run(…).stdout`` as a read of the environment
+               under the key *source text of that expression* (``PyPlat.env_read``)
+  probes       ``sysconfig.get_platform()``, ``platform.mac_ver()/ios_ver()/system()``, ``_get_musl_version(exe)``,
+               ``_parse_elf(exe)``, ``sys.executable``, ``sys.implementation._multiarch`` are environment entries;
+               ``functools.lru_cache`` wrappers in ``X6_TRANSPARENT_CACHES`` are translated through ``__wrapped__``;
+               ``<module of packaging>.<function>(…)`` is a call of that (translated) function; a function that is both a
+               probe of earlier rounds and translated now (``platform_tags``) stays a probe for its earlier callers
+  ELFFile      the binary file is a value held in ``self._f`` (``PyElf.fileOf data pos``): ``self._f.seek(x)`` rebinds ``self``,
+               ``self._read(fmt)`` is the primitive ``PyElf.read_struct`` (guarded by a digest of ``ELFFile._read``; it reads the
+               format *string*, so the layout strings of the source are tied to ``Gen.TagTables.elfFormats`` by the theorem);
+               in ``__init__`` a read rebinds ``self`` as well (sequential reads), in any other method every read must directly
+               follow a ``seek`` (``seek_first``), so the position a read leaves behind is never observed; ``bytes(xs)``, bytes
+               constants, ``os.fsdecode`` (ASCII), ``s.strip(chars)``
+  metadata     ``message = EmailMessage(); message["content-type"] = v`` is the oracle call ``EmailMessage.set_content_type(v)``
+               whose answer stands for ``(get_content_type().lower(), params)``; ``_Validator.__get__`` (exact statement shapes
+               only): ``cache = instance.__dict__`` makes the record's field list the instance dict (``cache[k] = v`` is
+               ``PyMd.setattr_dyn``), ``del instance._raw[k]`` is ``PyMd.del_field_item``, the reflective
+               ``getattr(self, f"_process_{self.name}")`` with its ``AttributeError`` fall-through is a dispatcher over the
+               ``_process_*`` methods the class defines, and the function hands back ``(value, instance)``
 Checks made by the translator (a failure makes the function unsupported):
   * a local changed inside a ``try`` body (other than by its last simple statement) must not be read in a handler or after
     a handler that falls through: Lean's ``try … catch`` restores the locals of the ``try`` start;
